@@ -40,7 +40,30 @@ JudgeCall(r) ==
                  ELSE IF ~OperatorsUntouched(r.out) THEN Verdict(r.id, "REJECT", "OperatorArgsChanged", nontriv, "")
                  ELSE Verdict(r.id, "ACCEPT", "", nontriv, "")
 
+(* C08 record: [id, kind = "types", ops: Seq([op, lam]), obs: Seq([res, ty])] -- one entry per stage; *)
+(* res = "ok" | exception class; ty = observed item type as a type term                                *)
+RECURSIVE StageCheck(_, _, _, _)
+StageCheck(r, i, itemT, acc) ==
+    IF i > Len(r.ops) THEN acc
+    ELSE LET want == StreamResult(r.ops[i].op, itemT, r.ops[i].lam)
+             got == r.obs[i]
+         IN IF want[1] = "ValueError" THEN
+                (IF got.res = "ValueError" THEN acc ELSE Append(acc, <<i, "WhereNotRefused">>))
+            ELSE IF got.res # "ok" THEN Append(acc, <<i, "Raised">>)
+            ELSE IF got.ty # want[2] THEN Append(acc, <<i, "ItemType">>)
+            ELSE StageCheck(r, i + 1, want[2], acc)
+JudgeTypes(r) ==
+    LET bad == StageCheck(r, 1, Ty0("Evt"), <<>>) IN
+    IF bad = <<>> THEN Verdict(r.id, "ACCEPT", "", TRUE, "")
+    ELSE Verdict(r.id, "REJECT", bad[1][2], TRUE, ToString(bad[1][1]))
+SpecTypes(r) == LET RECURSIVE Go(_, _)
+                    Go(i, itemT) == IF i > Len(r.ops) THEN <<>>
+                                    ELSE LET w == StreamResult(r.ops[i].op, itemT, r.ops[i].lam) IN
+                                         <<[res |-> w[1], ty |-> w[2]]>> \o Go(i + 1, w[2])
+                IN Go(1, Ty0("Evt"))
+
 Judge(r) == CASE r.kind = "untyped" -> JudgeUntyped(r)
+              [] r.kind = "types" -> JudgeTypes(r)
               [] r.kind = "call" -> JudgeCall(r)
               [] OTHER -> Verdict(r.id, "UNMODELLED", "kind", FALSE, r.kind)
 
@@ -49,6 +72,7 @@ Judge(r) == CASE r.kind = "untyped" -> JudgeUntyped(r)
 SpecSays(r) == IF r.kind = "call"
                THEN [miss |-> Missing(r.sig, r.shape),
                      want |-> IF Missing(r.sig, r.shape) THEN <<>> ELSE Normalized(r.sig, r.shape)]
+               ELSE IF r.kind = "types" THEN [miss |-> FALSE, want |-> SpecTypes(r)]
                ELSE [miss |-> FALSE, want |-> <<>>]
 
 VARIABLE l
